@@ -150,6 +150,8 @@ def run(ctx):
                 gn, cm = guards[0]
                 ctx.violated(r2, f, cons, f"the registration under {A.short(key, 30)} is guarded against duplicates only under a side condition (`{A.short(gn.test, 70)}`): when it does not hold, a second entry with the same key silently replaces the first",
                              expected=f"if {A.short(key, 30)} in <table>: raise", found="partial guard", node=store)
+            elif f.relpath == MIX and _model_builder_refuses_duplicate_channels(repo):
+                ctx.holds(r2, site, "no guard here, but every Model construction passes _nominal_and_modifiers_from_spec, whose duplicate-channel test dominates its own registration and raises: no model with merged channels can be built (a Workspace is not a model)")
             else:
                 ctx.violated(r2, f, cons, f"`{table}` is keyed by a name taken from the specification without a duplicate check: two elements with the same name are silently merged / the last one wins",
                              expected=f"membership test on {A.short(key, 30)} that raises a pyhf exception", found="no guard", node=store)
@@ -308,11 +310,17 @@ def _same_key(a, b, d):
 
 
 def _unconditional(test, cmpnode):
-    """The membership comparison decides the raise on its own (not and-ed with a side condition)."""
+    """The membership comparison decides the raise on its own: alone, as an arm of an `or`, or and-ed only with
+    `table[key] != <the new value>` (a second entry with the SAME content changes nothing and need not be refused)."""
     if test is cmpnode:
         return True
     if isinstance(test, ast.BoolOp) and isinstance(test.op, ast.Or):
         return any(_unconditional(v, cmpnode) for v in test.values)
+    if isinstance(test, ast.BoolOp) and isinstance(test.op, ast.And) and any(v is cmpnode for v in test.values):
+        others = [v for v in test.values if v is not cmpnode]
+        table = A.unparse(cmpnode.comparators[0])
+        key = A.unparse(cmpnode.left)
+        return all(isinstance(o, ast.Compare) and len(o.ops) == 1 and isinstance(o.ops[0], ast.NotEq) and A.unparse(o.left) == f"{table}[{key}]" for o in others)
     return False
 
 
@@ -377,6 +385,8 @@ def _lengths_interpreted(ctx, r4, r6, repo, reg):
                     ctx.violated(r4, b, f"{typ} data length [{lab}]", f"the builder fails with a foreign {type(e).__name__} instead of a pyhf exception")
                 else:
                     ctx.unrecognised(r4, b, f"{typ} [{lab}]", f"not interpretable: {type(e).__name__}: {e}")
+    # ---- duplicate names: the whole builder pipeline interpreted on specifications that pass the schema
+    _duplicates_interpreted(ctx, repo, reg, pyhf_excs)
     # ---- overrides of the wrong length
     red = repo.func(PU, "reduce_paramsets_requirements")
 
@@ -398,3 +408,84 @@ def _lengths_interpreted(ctx, r4, r6, repo, reg):
                     ctx.violated(r6, red, f"override length [{keyname} {lab}]", f"refused with {e.exc_name}, not a pyhf exception")
             except errs as e:
                 ctx.unrecognised(r6, red, f"override length [{keyname} {lab}]", f"not interpretable: {type(e).__name__}: {e}")
+
+
+def _model_builder_refuses_duplicate_channels(repo):
+    """_nominal_and_modifiers_from_spec iterates spec['channels'] and, before registering the channel under its name,
+    tests that name for membership in the same table and raises a pyhf exception (dominating the registration)."""
+    f = repo.func(PDF, "_nominal_and_modifiers_from_spec")
+    g = CFG.build(f.node.body)
+    dom = g.dominators()
+    pm = A.parent_map(f.node)
+    d = Deps(f.node)
+    excs = set(repo.module("src/pyhf/exceptions/__init__.py").classes)
+    for loop in [n for n in ast.walk(f.node) if isinstance(n, ast.For) and "spec['channels']" in A.unparse(n.iter) and isinstance(n.target, ast.Name)]:
+        cv = loop.target.id
+        for st in ast.walk(loop):
+            if isinstance(st, ast.Assign) and isinstance(st.targets[0], ast.Subscript) and A.unparse(st.targets[0].slice) == f"{cv}['name']":
+                table = A.unparse(st.targets[0].value)
+                for gn in ast.walk(loop):
+                    if isinstance(gn, ast.If) and isinstance(gn.test, ast.Compare) and isinstance(gn.test.ops[0], ast.In) and A.unparse(gn.test.left) == f"{cv}['name']" and A.unparse(gn.test.comparators[0]) == table:
+                        if any(isinstance(r, ast.Raise) and _exc(r) in excs for r in gn.body) and g.dominates(gn, A.stmt_of(st, pm), dom):
+                            return True
+    return False
+
+
+def _duplicates_interpreted(ctx, repo, reg, pyhf_excs):
+    import copy
+    from ..alg import RaisedInFragment
+    from .c01 import pipeline_world
+    rid = "C20.R2"
+    at, c = Poly.atom, Poly.const
+    f = repo.func(PDF, "_nominal_and_modifiers_from_spec")
+
+    def base():
+        return {"channels": [
+            {"name": "c1", "samples": [{"name": "s1", "data": [at("a0"), at("a1")], "modifiers": [{"name": "mu", "type": "normfactor", "data": None}, {"name": "sys", "type": "normsys", "data": {"hi": at("HI"), "lo": at("LO")}}]},
+                                       {"name": "s2", "data": [at("b0"), at("b1")], "modifiers": []}]},
+            {"name": "c2", "samples": [{"name": "s1", "data": [at("d0")], "modifiers": [{"name": "sys", "type": "normsys", "data": {"hi": at("HI"), "lo": at("LO")}}]}]}]}
+
+    def dup_channel(sp):
+        sp["channels"].append({"name": "c1", "samples": [{"name": "s1", "data": [at("e0"), at("e1")], "modifiers": []}]})
+
+    def dup_sample(sp):
+        sp["channels"][0]["samples"].append({"name": "s1", "data": [at("e0"), at("e1")], "modifiers": []})
+
+    def dup_modifier(sp):
+        sp["channels"][0]["samples"][0]["modifiers"].append({"name": "sys", "type": "normsys", "data": {"hi": at("HI_OTHER"), "lo": at("LO_OTHER")}})
+
+    def same_modifier_twice(sp):
+        sp["channels"][0]["samples"][0]["modifiers"].append(copy.deepcopy(sp["channels"][0]["samples"][0]["modifiers"][1]))
+
+    for lab, mut, must_raise in (("well-formed", None, False), ("two channels with one name", dup_channel, True), ("two samples with one name in a channel", dup_sample, True),
+                                 ("one (name, type) modifier twice on a sample with different data", dup_modifier, True), ("the same modifier entry repeated verbatim", same_modifier_twice, None)):
+        sp = base()
+        if mut:
+            mut(sp)
+        chans = sorted({ch["name"] for ch in sp["channels"]})
+        nb = {}
+        for ch in sp["channels"]:
+            nb[ch["name"]] = len(ch["samples"][0]["data"])
+        mods = sorted({(m["name"], m["type"]) for ch in sp["channels"] for sm in ch["samples"] for m in sm["modifiers"]})
+        cfg = Obj("config", {"channels": chans, "samples": sorted({sm["name"] for ch in sp["channels"] for sm in ch["samples"]}), "channel_nbins": {k_: c(v_) for k_, v_ in nb.items()}, "modifiers": mods, "modifier_settings": {}})
+        site = f"{PDF}::_nominal_and_modifiers_from_spec [interpreted: {lab}]"
+        try:
+            w, mset = pipeline_world(repo, reg, {})
+            w.call_func(f, [mset, cfg, sp, None])
+            if must_raise:
+                ctx.violated(rid, f, f"duplicate names [{lab}]", f"a specification with {lab} is accepted as a model: part of the declared content is silently dropped or merged", expected="raise InvalidModel", found="accepted")
+            else:
+                ctx.holds(rid, site, "accepted")
+        except RaisedInFragment as e:
+            cls_ = e.exc_name.split(".")[-1]
+            if must_raise is False:
+                ctx.violated(rid, f, f"[{lab}]", f"a well-formed specification is refused with {e.exc_name}")
+            elif cls_ in pyhf_excs:
+                ctx.holds(rid, site, f"refused with {cls_}")
+            else:
+                ctx.violated(rid, f, f"duplicate names [{lab}]", f"refused with {e.exc_name}, not one of pyhf's exception types")
+        except (Undecided, KeyError, TypeError, ValueError, IndexError, AttributeError) as e:
+            if must_raise and not isinstance(e, Undecided):
+                ctx.violated(rid, f, f"duplicate names [{lab}]", f"construction fails with a foreign {type(e).__name__} instead of a pyhf exception")
+            else:
+                ctx.unrecognised(rid, f, f"[{lab}]", f"not interpretable: {type(e).__name__}: {e}")
